@@ -11,6 +11,20 @@ COMMON_NOTE = ('Trusted: Lean 4.33 kernel with axioms propext/Classical.choice/Q
                'every invocation; harness generators, canonicalisation and monitors; ')
 
 CHECKS = {
+    'C16': dict(
+        text='Theorems over EVERY object graph (not only the transcribed ones): closes and I/O calls only ever raise closed flags and '
+             'change nothing else; a close sets the object\'s own flag; a closed object, or a handle whose consulted inner object is '
+             'closed, raises on data and position calls alike; closing a not-yet-closed reader closes everything it tracks '
+             '(one level; nested levels by re-application); reader close is idempotent; frame theorem: a close changes no object '
+             'outside reach (self, owned-if-closefd, tracked) - containment and ownership.  The per-class graphs (12 reader '
+             'types, handle kinds, wrappers) are a transcription tied to pyctr by an exhaustive configuration matrix: reader type '
+             'x source kind x closefd x handle kind (nested readers\' handles, in-memory .code-decompressed, crypto wrappers) x '
+             'orders (position-only call first, handle-first, double close, nested reader close) plus random interleavings.',
+        note=COMMON_NOTE + 'transitive completeness (handles of nested readers) is shown by the model\'s execution compared with pyctr, '
+             'the theorem is one-level; WeakSet/__del__ driven closing is outside the model; "I/O call" = read and tell; one known '
+             'finding (pyfilesystem RawWrapper around RomFSReader.open handles raises when closed after the reader).',
+        technique='Lean 4 proof (invariants over an object-graph semantics) + exhaustive model/implementation correspondence',
+        design='§4 C16'),
     'C13': dict(
         text='Theorems: partition typing table (fs/crypt type -> wrapper -> keyslot); counters from a CID; counter inference for '
              'CTR (zero MBR blocks) and TWL (standard MBR blocks, DSi byte reversal) returns the counter the image was encrypted '
